@@ -37,6 +37,11 @@ CHECKS = {
             "Every frontend-accepted query within the deviation bound (k<=2 quick / k<=3 thorough over the widened operator menu, plus two-edge structures with filter/tag/count deviations) x curated datasets x every argument map of the wide per-variable domains (negative, 0, i64::MIN, u64::MAX, empty and null-containing lists, invalid regex text) that argument validation accepts is run to exhaustion on the real engine with three adapters; any panic located in engine code is a violation.",
             "Adapters used are the harness's generic graph adapter and order-preserving / hint-driven wrappers of it; a panic located in harness code is a machinery error.",
             "DESIGN.md §4 C09"),
+    "C10": ("exploration",
+            "bounded-exhaustive enumeration of query documents from four generators (token sequences, directive sequences, document shapes, operand-type / deviation-bounded query spaces), each compiled by the real frontend under catch_unwind against two schemas",
+            "Every sequence of <= 4 (quick) / <= 6 (thorough) tokens from a 19-token alphabet raw and spliced into 4 positions of a valid query; every sequence of <= 3 / <= 4 directives from a 36-entry menu (well-formed and malformed @filter/@tag/@output/@optional/@fold/@recurse/@transform, unknown directives, duplicated arguments) on a property, an edge and an edge with inner output; ~110 document shapes (0-3 operations, mutation/subscription, variables, fragments, root directives, inline fragments in every position, meta fields, parameter literal kinds, deep nesting); every operator x every property type with variable and tag operands; the k<=2 / k<=3 query space. frontend::parse must return Ok or Err.",
+            "'Every query string' is bounded to these grammars over S-verif and numbers; raw bytes are the external parser's domain.",
+            "DESIGN.md §4 C10"),
     "C11": ("exploration",
             "bounded-exhaustive program-space enumeration; each accepted query's IR is checked by an independent structural-invariant checker (I1-I9)",
             "Every IR the frontend produces for the enumerated query space (k<=2 quick, k<=3 thorough; ~36k / ~2.5M queries) satisfies: Eid i -> Vid i+1, dense unique ids, one incoming edge per non-root vertex, folds precede their contents and Eids nest as intervals, edges go low->high, tags visible and defined no later than their use, imported_tags = exactly the parent-defined tags used inside the fold (no duplicates), variables recorded with the intersection of their use types and all used, outputs unique and indexed, all names defined in the schema text.",
